@@ -18,7 +18,8 @@ def outcomeOf (s : State) : Outcome :=
     returned := s.ph = .finished
     leaked := (s.nodes.filter (fun nd => !nd.done)).length + (s.nodes.filter (fun nd => !nd.helperDone)).length + (if s.thrDone then 0 else 1)
     delivered := (s.nodes.filter (fun nd => isOutputKind nd.kind)).map (·.deliv)
-    nodeFailed := s.nodes.any (·.failed) }
+    nodeFailed := s.nodes.any (·.failed)
+    crashed := s.nodes.any (·.panicked) }
 
 /-- No action is enabled. -/
 def Quiescent (cfg : Cfg) (s : State) : Prop := ∀ a, step cfg s a = none
@@ -39,8 +40,88 @@ theorem stopped_terminated {s : State} (hst : s.stopped = true) :
     intro nd hm; simp [(h.2.2 nd hm).2]
   simp [stopCompletes, allExited, outcomeOf, h.1, h1, h2, h.2.1]
 
-theorem holds_of {o : Outcome} (h1 : stopCompletes o = true) (h2 : allExited o = true) (h3 : allDelivered o = true) : holds o = true := by
-  simp [holds, h1, h2, h3]
+theorem holds_of {o : Outcome} (h0 : noCrash o = true) (h1 : stopCompletes o = true) (h2 : allExited o = true)
+    (h3 : allDelivered o = true) : holds o = true := by
+  simp [holds, h0, h1, h2, h3]
+
+/-! ### No helper goroutine sends on a closed edge (repaired barrier timers) -/
+
+def NoPanic (s : State) : Prop := ∀ (i : Nat) (nd : Nd), s.nodes[i]? = some nd → nd.panicked = false
+
+theorem nodeStep_panicked {env a nd child r} (h : nodeStep env a nd child = some r) (hg : env.barrierGuard = true) :
+    r.nd.panicked = nd.panicked := by
+  nstep h <;> simp_all
+
+theorem ChildEff.panicked {c c' : Nd} (h : ChildEff c c') : c'.panicked = c.panicked := by
+  unfold ChildEff at h
+  rcases h with h | h | h <;> subst h <;> simp
+
+theorem nopanic_step {cfg : Cfg} {s s' : State} {a : Act} (h : step cfg s a = some s') (hg : cfg.barrierGuard = true)
+    (hn : NoPanic s) : NoPanic s' := by
+  have same : s'.nodes = s.nodes → NoPanic s' := fun e => by intro i nd hi; rw [e] at hi; exact hn i nd hi
+  have modif : ∀ (k : Nat) (f : Nd → Nd), (∀ nd, (f nd).panicked = nd.panicked) → s'.nodes = modifyNth s.nodes k f → NoPanic s' := by
+    intro k f hf e i nd hi
+    rw [e, modifyNth_getElem?] at hi
+    split at hi
+    · cases h0 : s.nodes[i]? with
+      | none => simp [h0] at hi
+      | some x => simp [h0] at hi; subst hi; rw [hf]; exact hn i x h0
+    · exact hn i nd hi
+  cases a with
+  | node i a =>
+    simp only [step] at h
+    split at h
+    · rename_i ns l hst
+      simp only [Option.some.injEq] at h; subst h
+      obtain ⟨nd, r, g1, g2, _, _, _, _, hnode⟩ := stepAt_cases hst
+      intro k x hk
+      rcases hnode k x hk with ⟨_, _, h0⟩ | ⟨_, rfl⟩ | ⟨_, c, hc1, _, e2⟩
+      · exact hn k x h0
+      · rw [nodeStep_panicked g2 (by simp [env, hg])]; exact hn i nd g1
+      · rw [e2.panicked]; exact hn _ c hc1
+    · simp at h
+  | stop =>
+    simp only [step] at h
+    unfold stopStep at h
+    repeat' (first | contradiction | split at h)
+    all_goals (first | (simp at h; done) | (simp only [Option.some.injEq] at h; subst h))
+    all_goals (first | exact same rfl | (exact modif _ _ (by intro nd; simp) rfl))
+  | forkPut =>
+    simp only [step] at h
+    repeat' (first | contradiction | split at h)
+    all_goals (first | (simp at h; done) | (simp only [Option.some.injEq] at h; subst h))
+    · exact same rfl
+    · exact same rfl
+    · rename_i nd rest hnodes _
+      intro k x hk
+      cases k with
+      | zero => simp at hk; subst hk; simpa using hn 0 nd (by rw [hnodes]; rfl)
+      | succ k => exact hn (k+1) x (by rw [hnodes]; simpa using hk)
+  | _ =>
+    simp only [step] at h
+    repeat' (first | contradiction | split at h)
+    all_goals (first | (simp at h; done) | (simp only [Option.some.injEq] at h; subst h; exact same rfl))
+
+theorem nopanic_run {cfg : Cfg} {s : State} (hg : cfg.barrierGuard = true) (hn : NoPanic s) (as : List Act) :
+    NoPanic (run cfg s as) := by
+  induction as generalizing s with
+  | nil => exact hn
+  | cons a as ih =>
+    simp only [run]
+    split
+    · rename_i s' hs; exact ih (nopanic_step hs hg hn)
+    · exact ih hn
+
+theorem nopanic_init (kinds : List Kind) (n : Nat) : NoPanic (init kinds n) := by
+  intro i nd h
+  obtain ⟨k, _, rfl⟩ := init_getElem? _ _ _ _ h
+  rfl
+
+theorem noCrash_of {s : State} (hn : NoPanic s) : noCrash (outcomeOf s) = true := by
+  simp only [noCrash, outcomeOf, Bool.not_eq_true', List.any_eq_false]
+  intro nd hm
+  obtain ⟨j, hj⟩ := List.getElem?_of_mem hm
+  simp [hn j nd hj]
 
 theorem allDelivered_of_failed {s : State} (hf : s.nodes.any (·.failed) = true) : allDelivered (outcomeOf s) = true := by
   simp only [allDelivered, outcomeOf, hf, Bool.true_or]
@@ -85,10 +166,12 @@ theorem lossless_delivered {N cfg} {s : State} (hl : Lossless N cfg s) (hst : s.
   | udf => rw [hkk] at hkind; simp [isOutputKind] at hkind
   | fail K => rw [hkk] at hkind; simp [isOutputKind] at hkind
   | loop => rw [hkk] at hkind; simp [isOutputKind] at hkind
+  | barrier d => rw [hkk] at hkind; simp [isOutputKind] at hkind
 
-theorem lossless_holds {N cfg} {s : State} (hl : Lossless N cfg s) (hst : s.stopped = true) : holds (outcomeOf s) = true := by
+theorem lossless_holds {N cfg} {s : State} (hl : Lossless N cfg s) (hst : s.stopped = true) (hn : NoPanic s) :
+    holds (outcomeOf s) = true := by
   have ⟨h1, h2⟩ := stopped_terminated hst
-  refine holds_of h1 h2 ?_
+  refine holds_of (noCrash_of hn) h1 h2 ?_
   have := lossless_delivered hl hst
   simp only [allDelivered, Bool.or_eq_true]
   right
